@@ -726,9 +726,15 @@ class VerifyingBase(LookupBaseFallback):  # noqa F821
     # zope.component.persistentregistry
 
     def changed(self, originally_changed):
+        # Find out what we are going to be consistent with *before* the
+        # caches are dropped. Other threads (or a ``_generation``
+        # property) can run in between: whatever they cache or change
+        # then must not end up covered by the generations we record.
+        verify_ro = self._registry.ro[1:]
+        verify_generations = [r._generation for r in verify_ro]
         LookupBaseFallback.changed(self, originally_changed)  # noqa F821
-        self._verify_ro = self._registry.ro[1:]
-        self._verify_generations = [r._generation for r in self._verify_ro]
+        self._verify_ro = verify_ro
+        self._verify_generations = verify_generations
 
     def _verify(self):
         if (
